@@ -24,6 +24,8 @@ SYMBOLS = ['!', '@', '#', '$', '%', '^', '&', '*', ' ', '_', '-', '.', '/', ':',
            'Ⓐ', 'Ⅻ', 'Ⓑ']
 CASED_SYMBOL_CORPUS = ['Ⓐnarchy99', 'ⅫMonkeys', 'x9ⒷSide', 'Ⓐ', 'passⅫ', 'Ⓑ1qaz2wsx']
 DIGITS = ['1', '12', '123', '007', '42', '1234567', '0', '²', '٣', '99']
+# each cased non-letter symbol occurs in one password only (no other password lends the ruleset its upper-case form)
+CASED_SYMBOL_ONCE = ['\u24b6narchy99', '\u216bMonkeys', 'x9\u24b7Side', 'pass\u2167', '\u24b81qaz2wsx', '7\u24b9og7']
 NONTAME = ['İ', 'ǅ', 'ǈ', 'ß', 'ﬁ', 'ŉ', 'ǰ', 'ΐ']
 
 
